@@ -206,11 +206,11 @@ PROPS["C11"] = {
 }
 
 PROPS["C01"] = {
-    "module": "MsiProofs.Props.C01",
+    "module": "MsiProofs.Props.C01b",
     "gen": ["limits", "summary", "column", "streamname", "category", "codepage"],
     "profiles": ["dev"],
-    "theorems": ["MsiProofs.C01.cell_roundtrip", "MsiProofs.C01.rows_roundtrip", "MsiProofs.C01.pool_roundtrip", "MsiProofs.C01.storable_spec", "MsiProofs.C01.flush_clean", "MsiProofs.C01.finish_clears", "MsiProofs.C01.flush_idempotent", "MsiProofs.C01.close_modes_same_bytes", "MsiProofs.C01.open_synced", "MsiProofs.C01.op_step", "MsiProofs.C01.history", "MsiProofs.C01.finish_saved", "MsiProofs.C01.finish_step", "MsiProofs.C01.openCore_of_saved", "MsiProofs.C01.reopen_after_any_history", "MsiProofs.C01.table_stream_notMeta", "MsiProofs.C01.user_stream_notMeta", "MsiProofs.C01.ascii_roundtrip", "MsiProofs.C01.poolOk_ascii"],
-    "level_text": 'For ASCII text the codec part of Savable is a theorem under every code page (poolOk_ascii). Lean theorems on the package model: HISTORIES — an invariant (Synced: whenever a modified flag is down, the summary/pool streams of the container decode to the in-memory summary/pool) that open establishes, that every API request preserves (insert, update, delete, create_table, drop_table, stream write/remove, signature removal, summary and code-page setters; accepted or refused; induction over the request list, no bound) and that a successful save re-establishes; hence reopen_after_any_history: after any history and a successful save, reopening yields the same container, summary information and string pool, so every table definition reads the same rows. Uses the frame condition that table and user streams never are the metadata streams under cfb\'s case-insensitive comparison (proved; false for tables named _StringPool/_StringData, which is how defect D22 was found). Layers: string-pool, row-block, cell and property-set round trips; the empty string is stored as null; flush writes exactly what changed and a second flush changes nothing; the three ways of closing leave the same bytes. NOT proved (tied by correspondence + oracle): that the catalog pass over the saved container returns the in-memory table definitions; that reachable states are expressible in the format (Savable is a hypothesis at the save). Composition on the real code: byte-exact correspondence model vs real crate + oracle on the real code: snapshot before close = snapshot after reopen, for every close mode incl. crash-after-flush (bytes on the medium when flush returned, package forgotten).',
+    "theorems": ["MsiProofs.C01.cell_roundtrip", "MsiProofs.C01.rows_roundtrip", "MsiProofs.C01.pool_roundtrip", "MsiProofs.C01.storable_spec", "MsiProofs.C01.flush_clean", "MsiProofs.C01.finish_clears", "MsiProofs.C01.flush_idempotent", "MsiProofs.C01.close_modes_same_bytes", "MsiProofs.C01.open_synced", "MsiProofs.C01.op_step", "MsiProofs.C01.history", "MsiProofs.C01.finish_saved", "MsiProofs.C01.finish_step", "MsiProofs.C01.openCore_of_saved", "MsiProofs.C01.reopen_after_any_history", "MsiProofs.C01.table_stream_notMeta", "MsiProofs.C01.user_stream_notMeta", "MsiProofs.C01.ascii_roundtrip", "MsiProofs.C01.poolOk_ascii", "MsiProofs.C01.synced_open", "MsiProofs.C01.reopen_same_tables", "MsiProofs.C01.op_allInv", "MsiProofs.C01.history_allInv", "MsiProofs.C01.reopen_after_history", "MsiProofs.C01.op_kept", "MsiProofs.C01.finish_catalogSynced"],
+    "level_text": 'END TO END (reopen_after_history): from any state satisfying the package invariants (AllInv: reference counts exact up to a slack, keys ascending, metadata streams in sync, catalog tables in sync with the table list), after any history of inserts, updates and deletes on user tables - accepted or refused - and a successful save of a state expressible in the format, open on the saved container succeeds and yields a package with the same container, summary information, string pool AND table definitions (the catalog pass is proved to return the in-memory list: synced_open), in which every table reads the same rows. create_table / drop_table inside the history: invariant preservation not proved (oracle). For ASCII text the codec part of Savable is a theorem under every code page (poolOk_ascii). Lean theorems on the package model: HISTORIES — an invariant (Synced: whenever a modified flag is down, the summary/pool streams of the container decode to the in-memory summary/pool) that open establishes, that every API request preserves (insert, update, delete, create_table, drop_table, stream write/remove, signature removal, summary and code-page setters; accepted or refused; induction over the request list, no bound) and that a successful save re-establishes; hence reopen_after_any_history: after any history and a successful save, reopening yields the same container, summary information and string pool, so every table definition reads the same rows. Uses the frame condition that table and user streams never are the metadata streams under cfb\'s case-insensitive comparison (proved; false for tables named _StringPool/_StringData, which is how defect D22 was found). Layers: string-pool, row-block, cell and property-set round trips; the empty string is stored as null; flush writes exactly what changed and a second flush changes nothing; the three ways of closing leave the same bytes. NOT proved (tied by correspondence + oracle): preservation of the catalog-sync invariant by create_table / drop_table; that reachable states are expressible in the format (Savable is a hypothesis at the save; a theorem for ASCII text). Composition on the real code: byte-exact correspondence model vs real crate + oracle on the real code: snapshot before close = snapshot after reopen, for every close mode incl. crash-after-flush (bytes on the medium when flush returned, package forgotten).',
     "level_note": "Trusted: Lean kernel; the hand-written package model (MsiModel/Pkg.lean, PkgApi.lean, Pool, Table, PropSet, Summary), tied to the code by byte-exact correspondence: the same request histories run on the real crate and on the model's definitions, compared on every reply including full snapshots and the raw bytes of every saved stream; cfb is modelled as a finite map from names (compared by UTF-16 length and upper-cased text) to byte strings; the 24 table-backed code pages are modelled on ASCII text only (non-ASCII text is exercised under UTF-8; all pages are exercised by the oracle on the real code).",
     "technique": 'Lean 4 proof (codec round trip, flush idempotence) + byte-exact differential histories + reopen oracle',
     "rule": 'seeded random sessions: package type, database code page, 1-3 tables with random schemas (types, widths, flags, ranges, categories, enumerations, composite/nullable keys), inserts (valid with controlled invalid mutations), updates (incl. key columns), deletes, selects, stream writes/removes (0..9000 bytes), summary setters/clearers, create/drop table, rejected calls, close/reopen in all three modes at random positions, snapshot after every step, raw bytes after flush. non-trivial = distinct successful mutating requests + decoded files',
